@@ -59,7 +59,7 @@ kf("C01", "C01-clz-ctz", "countLeadingZeros/countTrailingZeros are emitted as ba
 kf("C01", "C01-round-ties", "round() is emitted as GLSL.std.450 Round, whose tie direction is implementation-chosen; WGSL requires ties-to-even (RoundEven)",
    ["C01|F1/call/round/*|*|mismatch"])
 kf("C01", "C01-abs-unsigned", "abs(u32) is emitted as SAbs, so abs(0xFFFFFFFFu) yields 1 instead of 0xFFFFFFFF (abs on unsigned is the identity)",
-   ["C01|F1/call/abs/*u32*|*|mismatch", "C01|F4c/call:abs:u32*|*|mismatch"])
+   ["C01|F1/call/abs/*u32*|*|mismatch", "C01|F4c/call:abs:u32*|*|mismatch", "C01|F4c/call:abs:vec2<u32>*|*|mismatch"])
 kf("C01", "C01-switch-all-break-unreachable", "a switch whose every clause ends in break (e.g. `switch x { case 0: { break; } default: { break; } }`) branches to a merge block terminated by OpUnreachable, which is then executed",
    ["C01|F2/*|*|trap:unreachable", "C01|F2L/*|*|trap:unreachable"])
 
@@ -122,7 +122,7 @@ kf("C05", "C05-clz-ctz", "countTrailingZeros is emitted as findLSB (ctz(0) = -1 
 kf("C05", "C05-global-init-scalar-conversion", "a module-scope variable initialised with a scalar conversion of a negated literal (`var<private> p: i32 = i32(-2147483648);`) is emitted as `int p = int(0)`: the conversion's operand is lost",
    ["C05|F1lit/private/i32|*|mismatch"])
 kf("C05", "C05-abs-unsigned", "abs(u32) is emitted as abs(uint), which GLSL does not define (type error)",
-   ["C05|F1/call/abs/*u32*|*|malformed-output*", "C05|F4c/*call:abs:u32*|*|malformed-output*"])
+   ["C05|F1/call/abs/*u32*|*|malformed-output*", "C05|F4c/*call:abs:u32*|*|malformed-output*", "C05|F4c/*call:abs:vec2<u32>*|*|malformed-output*"])
 
 kf("C05", "C05-block-const-outlives-block", 'a function-scope `const` without type annotation declared in a nested block stays bound after the block ends (popScope does not drop the deferred initialiser): `const g: i32 = 5; fn h() -> i32 { var acc = 0; { const g = 7; acc += g; } acc += g; return acc; }` returns 14 instead of 12 (same with a module-scope var g)',
    ["C05|F8s/*/blk-const/noref/after/*|*|mismatch"], "fixed:dc4a19e")
@@ -319,6 +319,10 @@ kf("C18", "C18-nondeterministic-phi-order", "dxil.Compile gave different bytes f
    ["C18|nondeterministic|F2L", "C18|nondeterministic|F2"], "fixed:6812b90")
 kf("C18", "C18-dead-code-after-block-return", "a `return` that follows a block which itself returns (`{ return a; } return a;` — valid WGSL, dead code) is emitted as an instruction record after the terminator of the last basic block",
    ["C18|func.terminators|function @*: instruction record (code #) after the terminator of the last declared block*|F2*"])
+kf("C18", "C18-vector-component-float-compare", "a float comparison whose operand is a component taken from a float vector (`v.y < x`, `v[1] == x`) is emitted as an integer instruction: an icmp record carrying a floating-point predicate code, an fp-to-int cast from i32 (the extracted component is typed as an integer)",
+   ["C18|func.type-check|*icmp predicate # out of range|F4c/*", "C18|func.type-check|*cast opcode # from i# to i#: invalid fp-to-int|F4c/conv:*(swz:y:vec2<f32>)", "C18|func.type-check|*cast opcode # from i# to i#: invalid fp-to-int|F4c/conv:*(idx:1:vec2<f32>)"])
+kf("C18", "C18-vector-unary-in-composition", "a unary operator on a 2-component vector (`!b2`, `~v`, `-v`) used directly as the operand of a conversion, select, swizzle or index: operands typed i8/i1/i32 inconsistently, or a forward reference to a call result of type void",
+   ["C18|func.type-check|*|F4c/*(un:!:vec2<bool>)", "C18|func.type-check|*|F4c/*(un:~:vec2<*", "C18|func.type-check|*|F4c/*(un:-:vec2<*", "C18|func.record|*|F4c/*(un:!:vec2<bool>)"])
 kf("C18", "C18-bool-width", "boolean values are materialised inconsistently as i1 and i32: zext/sext from i32 to i32 for `!` on bool vectors, i32 stored through an i1 pointer for `&&`",
    ["C18|func.type-check|*invalid zext/sext|*", "C18|func.type-check|*does not match pointee type i#|*",
     "C18|func.type-check|*operand value # has type i#, the record implies i#|F4c/*bin:&&:bool:bool*", "C18|func.type-check|*operand value # has type i#, the record implies i#|F4c/*bin:||:bool:bool*",
